@@ -421,3 +421,16 @@ COQ_PROPS = (list(COQ_PROPS) if isinstance(COQ_PROPS, (list, tuple)) else [COQ_P
 THEOREMS = list(THEOREMS) + ['SRC_valid_classes', 'SRC_class_valid', 'SRC_multiplicity', 'SRC_is_constant', 'SRC_is_repeating', 'SRC_const_period', 'SRC_n_slices']
 TABLES = sorted(set(list(globals().get('TABLES') or ['t_classes', 't_ext_tol']) + ['t_src_ext', 't_classes', 't_ext_tol']))
 TRUSTED_BASE = list(TRUSTED_BASE) + ['tools/tables/py2coq.py + t_src_ext.py: typed fail-closed translator of is_constant, is_repeating, get_valid_classes, get_multiplicity, _get_const_period, n_slices into Gallina; coq/Common/PyOps2.v as the meaning of the translated primitives']
+
+
+# source tie, stage A (integrator): _global_slice_subset and _get_changed_class are TRANSLATED from the AST on every run and the
+# hand model (global_slice_subset, changed_class) is proved equal to the translation on stored content (Props/SRCalg.v)
+COQ_PROPS = list(COQ_PROPS) + ['Props/SRCalg.v']
+THEOREMS = list(THEOREMS) + ['SRC_global_slice_subset', 'SRC_changed_class']
+
+
+# source tie, stage B (integrator): _change_class / _simplify are TRANSLATED in state-passing form (t_src_state.py) and the per-key
+# model (change_class_k, simplify_k) is proved to be a refinement of the translation on the stored content (Props/SRCstate.v)
+COQ_PROPS = list(COQ_PROPS) + ['Props/SRCstate.v']
+THEOREMS = list(THEOREMS) + ['SRC_change_class', 'SRC_simplify', 'SRC_to_content_holds']
+TABLES = sorted(set(list(TABLES) + ['t_src_state', 't_content', 't_cli']))
